@@ -33,6 +33,10 @@ func configs08(tier string) []xplore.Config {
 		{{"upd", "a/b"}, {"upd", "a/c"}, {"upd", "a/b"}, {"del", "a/c"}},
 		{{"upd", "a/b"}, {"upd", "a/b"}, {"upd", "a/b"}},
 		{{"upd", "a/c"}, {"del", "a"}, {"upd", "a/b"}},
+		// a leaf CREATED while the subscriber is stalled and updated again before
+		// the creation was dequeued: still one pending entry, newest value
+		{{"upd", "a/c"}, {"upd", "a/c"}, {"upd", "a/c"}},
+		{{"upd", "a/c"}, {"upd", "a/b"}, {"upd", "a/c"}, {"upd", "a/d"}},
 	}
 	bound := 1
 	if tier == "thorough" {
@@ -275,6 +279,43 @@ func run08(cfg xplore.Config, ch vrt.Chooser, trace bool) (xplore.Outcome, *vrt.
 			max := len(leaves) + dels + 1 + 1
 			if got := len(a.log) - before; got > max {
 				viol(&out, "backlog-unbounded", "the stalled subscriber's backlog held %d entries; bound is %d (one per distinct pending leaf + one per delete + sync + in-flight); log: %s", got, max, renderLog(a.log))
+			}
+			// the same bound, exactly: the first response logged after the release
+			// is the one that was in flight; behind it the backlog holds ONE entry
+			// per pending leaf - two update responses for one leaf need a delete
+			// of it in between (a re-created leaf is a new leaf) - and, the writer
+			// being done, a leaf that was never deleted is sent with its final value
+			if len(a.log) > before+1 {
+				pendingSince := map[string]int{}
+				for i, r := range a.log[before+1:] {
+					n := r.GetUpdate()
+					if n == nil {
+						continue
+					}
+					for _, dp := range n.Delete {
+						dk := strings.Join(fullIndex(n.Prefix, dp), "/")
+						for k := range pendingSince {
+							if k == dk || strings.HasPrefix(k, dk+"/") || dk == "" {
+								delete(pendingSince, k)
+							}
+						}
+					}
+					if len(n.Update) != 1 || n.Atomic {
+						continue
+					}
+					k := strings.Join(fullIndex(n.Prefix, n.Update[0].Path), "/")
+					if j, dup := pendingSince[k]; dup {
+						viol(&out, "backlog-duplicate-entry", "the drained backlog holds two entries for the one pending leaf %s (responses %d and %d after the release, no delete in between): log: %s", k, j, i, renderLog(a.log[before:]))
+						break
+					}
+					pendingSince[k] = i
+					if !touched([]writer{{"t1", d.script}}, "t1", k) {
+						if fin := w.cur["t1|"+k]; fin != 0 && valOf(n) != fmt.Sprint(fin) {
+							viol(&out, "stale-value-after-stall", "after the stall leaf %s was sent with value %s although its newest value is %d (writer finished before the release); log: %s", k, valOf(n), fin, renderLog(a.log[before:]))
+							break
+						}
+					}
+				}
 			}
 		}
 		out.Obs = fmt.Sprintf("A:%v %s | B: %s", a.status, renderLog(a.log), renderLog(b.log))
